@@ -132,6 +132,121 @@ def hand_pool(rng, thorough):
     return out
 
 
+def prng_bytes(n, seed):
+    """incompressible bytes that do not depend on the run's seed"""
+    x, out = (seed * 0x9E3779B97F4A7C15 + 1) & ((1 << 64) - 1), bytearray()
+    for _ in range(n):
+        x ^= (x >> 12)
+        x ^= (x << 25) & ((1 << 64) - 1)
+        x ^= (x >> 27)
+        out.append(((x * 0x2545F4914F6CDD1D) >> 56) & 255)
+    return bytes(out)
+
+
+ALPHA = b"qwertzuiopasdfghjklyxcvbnm0123456789"
+
+
+def carry_pool(run, tools, thorough):
+    """members whose encoding could lean on decoder state that a concatenated member does not have:
+    the ring of last distances (initial values 4, 11, 15, 16 and whatever an earlier meta-block left
+    there), the static dictionary, the two bytes of literal context before the member.
+    contents: incompressible head (so that the first meta-block is stored uncompressed) + short-period
+    tail (periods 1..16), produced one-shot and with a flush after the head; members that start with
+    repeats at the distances 4/11/15/16; members that start with static-dictionary words."""
+    rng = run.rng
+    jobs = []      # (content, line, kind)
+    quals = [2, 3, 4, 5, 6, 7, 9, 10, 11]
+
+    def one(content, q, lg, fl, kind):
+        jobs.append((content, enc_line(q, lg, fl, content), kind + " one-shot q%d w%d %s" % (q, lg, fl)))
+
+    def flushed(head, tail, q, lg, fl, kind):
+        jobs.append((head + tail, "ENCS %d %d %s W%s L W%s" % (q, lg, fl, hx(head), hx(tail)), kind + " flush-after-head q%d w%d %s" % (q, lg, fl)))
+
+    for period in range(1, 17):
+        tail = bytes(ALPHA[i % period] for i in range(700 if period % 2 else 1500))
+        for hs in ((40, 1000) if not thorough else (0, 40, 300, 1000, 5000)):
+            head = prng_bytes(hs, 100 + period + hs)
+            for q in (rng.sample(quals, 2) if not thorough else quals[::2] + [rng.choice(quals)]):
+                lg = rng.choice([16, 18, 22])
+                fl = rng.choice(["c", "c", "cm", "a"])
+                if hs:
+                    flushed(head, tail, q, lg, fl, "head%d+period%d" % (hs, period))
+                one(head + tail, q, lg, fl, "head%d+period%d" % (hs, period))
+    # the first meta-block of a one-shot compression is cut inside the head only when the head is long
+    for period in ((4, 11, 16) if not thorough else (1, 3, 4, 11, 15, 16)):
+        head = prng_bytes(140000, 7 + period)
+        tail = bytes(ALPHA[i % period] for i in range(6000))
+        for q in ((2, 5) if not thorough else (2, 5, 9)):
+            one(head + tail, q, 16, "c", "head140000+period%d" % period)
+    # repeats at exactly the distances a fresh decoder has in its ring, from the member's first bytes on
+    for d in (4, 11, 15, 16):
+        for variant in range(2):
+            start = prng_bytes(d, 50 + d + variant) if variant == 0 else bytes(ALPHA[(7 * i) % len(ALPHA)] for i in range(d))
+            content = bytearray(start)
+            while len(content) < 400:
+                content.append(content[-d])
+            for q in rng.sample(quals, 3 if not thorough else 6):
+                one(bytes(content), q, rng.choice([16, 22]), "c", "repeat-at-distance-%d" % d)
+                flushed(bytes(content[:d + 3]), bytes(content[d + 3:]), q, 22, "c", "repeat-at-distance-%d" % d)
+    # static-dictionary words right at the start of a member
+    for text in (b"The Government of the United States, which is the information about the development of the international",
+                 b"                 and the                        of the                     ", b"<!DOCTYPE html><html><head><meta charset=\"utf-8\"><title>"):
+        for q in rng.sample(quals, 3 if not thorough else 6):
+            one(text, q, 22, "c", "dictionary-words-first")
+            one(text * 6, q, 18, "a", "dictionary-words-first")
+    res = tools.impl([j[1] for j in jobs])
+    pool = []
+    for (c, line, kind), r in zip(jobs, res):
+        if r.startswith("OK"):
+            b = unhx(r.split()[1])
+            wb = read_wbits(b)
+            fl = line.split()[3]
+            pool.append({"bytes": b, "content": c, "kind": "carry " + kind, "catable": "c" in fl, "lgwin": wb[0] if wb else None, "carry": True})
+        else:
+            run.note("encoder failed on a state-carry member: %s -> %s" % (kind, r[:80]))
+    return pool
+
+
+def carry_lists(run, pool, prevs_src):
+    """every state-carry member in non-first position behind members of several lengths (and, when it is
+    only appendable, in first position in front of a catable one)"""
+    rng = run.rng
+    prevs = sorted([p for p in prevs_src if not is_large_format(p["bytes"]) and p["lgwin"] == 24 and len(p["bytes"]) >= 5 and not p.get("carry")],
+                   key=lambda p: len(p["bytes"]))
+    cats = [p for p in prevs_src if p["catable"] and len(p["bytes"]) >= 5 and (p["lgwin"] or 99) <= 16 and not is_large_format(p["bytes"])]
+    lists = []
+    if not prevs:
+        return lists
+    picks = [prevs[0], prevs[len(prevs) // 2], prevs[-1]]
+    for k, m in enumerate(p for p in pool if p.get("carry")):
+        if m["catable"]:
+            big = len(m["bytes"]) > 50000
+            for pv in ([picks[k % 3]] if big else picks):
+                lists.append(("new", [pv, m]))
+            if not big:
+                lists.append(("new", [rng.choice(prevs), rng.choice([p for p in prevs if p["catable"]] or [m]), m, m]))
+                lists.append(("w24", [m]))
+        elif cats:
+            lists.append(("new", [m, rng.choice(cats)]))
+    return lists
+
+
+# fixed witnesses of the two recorded (known) findings; they do not depend on the seed, the tier or the encoder
+PINNED_MIXED = ("8b0080303168020040dc606c5ed288a362c2e574f61e6c", b"0123456789" * 8)     # catable, lgwin 22, RFC 7932 format
+
+
+def pinned_lists():
+    rfc = {"bytes": unhx(PINNED_MIXED[0]), "content": PINNED_MIXED[1], "kind": "pinned catable q5 w22 (simple distance code)", "catable": True, "lgwin": 22}
+    lf_b, lf_c = handmade(14, 22, "raw", 4, b"hello")
+    large_first = {"bytes": lf_b, "content": lf_c, "kind": "pinned hand w22/14 raw4", "catable": True, "lgwin": 22}
+    lm_b, lm_c = handmade(14, 22, "meta", 3, b"K" * 65537, b"T")
+    large_meta3 = {"bytes": lm_b, "content": lm_c, "kind": "pinned hand w22/14 meta3", "catable": True, "lgwin": 22}
+    return [("w30", [rfc]),                              # C03-mixed-large-window-format
+            ("new", [large_first, rfc]),                 # the same class without a window override
+            ("new", [large_first, large_meta3])]         # C03-header-longer-than-lookahead
+
+
 def systematic_lists(run, pool):
     """every end-marker bit offset (0-7) of the previous member x every header form of the next
     one, with and without a trailing empty member (which makes finish() re-append the marker)"""
@@ -232,7 +347,7 @@ def check(run):
     pool, encbad = enc_pool(run, tools, thorough)
     if encbad:
         run.note("encoder refused/failed %d member requests, e.g. %s" % (len(encbad), encbad[:2]))
-    pool = pool + hand_pool(rng, thorough)
+    pool = pool + hand_pool(rng, thorough) + carry_pool(run, tools, thorough)
     # the members themselves must decode to their contents (validates the generator, not the property)
     selfd = tools.impl(["DECG " + hx(p["bytes"]) for p in pool])
     keep = []
@@ -242,7 +357,11 @@ def check(run):
     if len(keep) != len(pool):
         run.note("dropped %d generated members that do not decode to their content on their own (generator problem)" % (len(pool) - len(keep)))
     pool = keep
-    lists = gen_lists(run, pool, thorough)
+    pinned = pinned_lists()
+    pd = tools.impl(["DECG " + hx(m["bytes"]) for _, ms in pinned for m in ms])
+    if not all(d.startswith("OK") for d in pd):
+        run.note("a pinned witness member no longer decodes on its own (generator problem)")
+    lists = pinned + carry_lists(run, pool, pool) + gen_lists(run, [p for p in pool if not p.get("carry")], thorough)
     jobs = []     # (list index, variant, line)
     for li, (init, ms) in enumerate(lists):
         bs = [m["bytes"] for m in ms]
@@ -272,6 +391,7 @@ def check(run):
              for k, (li, var, l) in enumerate(jobs) if var == "one-shot" and sum(len(m["bytes"]) for m in lists[li][1]) <= 40000]
     sres = dict(zip([k for k, _ in sjobs], tools.model([s for _, s in sjobs])))
     cells, nviol, nspec_applied = {}, 0, 0
+    pending = []    # violations found: (unknown?, script size, job index, case, line, members, why)
     sizes = {"empty": 0, "1-3B content": 0, "short(<5B) member": 0, ">=64KiB member": 0}
     for k, ((li, var, l), p, d, g) in enumerate(zip(jobs, parsed, dec, decg)):
         init, ms = lists[li]
@@ -317,16 +437,26 @@ def check(run):
                     sizes[">=64KiB member"] += 1
         if why:
             nviol += 1
-            if nviol <= 5 or mixed_large_window(init, ms) or header_exceeds_lookahead(init, ms):
-                case = {"kind": "concat", "variant": var, "init": init, "mixed_large_window": mixed_large_window(init, ms),
-                        "header_exceeds_lookahead": header_exceeds_lookahead(init, ms),"member_kinds": [m["kind"] for m in ms], "member_sizes": [len(m["bytes"]) for m in ms],
-                        "content_sizes": [len(m["content"]) for m in ms], "end_offsets": [end_offset(m["bytes"]) for m in ms]}
-                if len(l) < 60000:
-                    case["request"] = l
-                    case["members_hex"] = [hx(m["bytes"]) for m in ms]
-                    case["contents_hex"] = [hx(m["content"]) for m in ms]
-                run.report("spec-violation", case, {"impl": {"final": final_name(p["final"]), "out": hx(p["out"])[:4000]}, "model": ma[k][:300], "spec": why},
-                           what="concatenation of appendable/catable members: " + why)
+            case = {"kind": "concat", "variant": var, "init": init, "mixed_large_window": mixed_large_window(init, ms),
+                    "header_exceeds_lookahead": header_exceeds_lookahead(init, ms), "member_kinds": [m["kind"] for m in ms], "member_sizes": [len(m["bytes"]) for m in ms],
+                    "content_sizes": [len(m["content"]) for m in ms], "end_offsets": [end_offset(m["bytes"]) for m in ms]}
+            pending.append((vlib.match_known(PROP, case) is None, len(l), k, case, l, ms, why))
+    # recorded known findings are always passed on (they print KNOWN-FINDING once each); of the others the
+    # five smallest scripts are reported, so that the replay is a small concrete input
+    nunknown = sum(1 for x in pending if x[0])
+    shown = 0
+    for unknown, _, k, case, l, ms, why in sorted(pending, key=lambda x: (x[0], x[1])):
+        if unknown:
+            shown += 1
+            if shown > 5:
+                break
+        if len(l) < 800000:
+            case["request"] = l
+            case["members_hex"] = [hx(m["bytes"]) for m in ms]
+            case["contents_hex"] = [hx(m["content"]) for m in ms]
+        p = parsed[k]
+        run.report("spec-violation", case, {"impl": {"final": final_name(p["final"]), "out": hx(p["out"])[:4000]}, "model": ma[k][:300], "spec": why},
+                   what="concatenation of appendable/catable members: " + why)
     offs = sorted(set(c[0] for c in cells))
     forms = sorted(set(c[1] for c in cells))
     run.cov["reached_cells"] = {"rows = bit offset of the previous end marker (7 = straddling)": offs,
@@ -338,17 +468,22 @@ def check(run):
     run.cov["distinct_nontrivial"] = len(set(j[2] for j in jobs if len(lists[j[0]][1]) >= 2 or lists[j[0]][0] != "new"))
     run.cov["rule"] = ("lists of 1-8 members: encoder-made (first appendable or catable, rest catable; qualities 0-11, lgwin 10-30 incl. large window, magic number, size hint; "
                        "contents empty / 1-3 bytes / text / random / block-size multiples / long) and hand-built members with every WBITS form x metadata MSKIPBYTES 0-3 / "
-                       "uncompressed MNIBBLES 4-5(-6 thorough); declared windows non-increasing; optional window override; run one-shot, byte-wise, with tiny buffers and through "
+                       "uncompressed MNIBBLES 4-5(-6 thorough); state-carry members in non-first position (incompressible head + period 1..16 tail, one-shot and with a "
+                       "flush after the head, repeats at the initial ring distances 4/11/15/16, dictionary words first; qualities 2-11); pinned witnesses of the recorded "
+                       "known findings; declared windows non-increasing; optional window override; run one-shot, byte-wise, with tiny buffers and through "
                        "the C ABI; output decoded by brotli-decompressor and libbrotlidec and compared with the concatenated contents, and compared with the Coq bit-level "
                        "specification concat_spec. distinct_nontrivial = distinct scripts that cross at least one member boundary (>= 2 members or a window override)")
     run.cov["traces_validated_against_impl"] = len(lines)
     run.cov["bit_level_spec_applied"] = nspec_applied
     run.cov["member_lists"] = len(lists)
+    run.cov["state_carry_members"] = sum(1 for p in pool if p.get("carry"))
+    run.cov["state_carry_lists"] = sum(1 for (_, m0) in lists if any(m.get("carry") for m in m0))
+    run.cov["pinned_known_finding_lists"] = len(pinned)
     run.cov["lists_mixing_large_window_format"] = sum(1 for (i0, m0) in lists if mixed_large_window(i0, m0))
     run.cov["lists_with_header_longer_than_lookahead"] = sum(1 for (i0, m0) in lists if header_exceeds_lookahead(i0, m0))
     run.cov["samples"] = [jobs[0][2][:300], jobs[len(jobs) // 2][2][:300], {"init": lists[-1][0], "members": [m["kind"] for m in lists[-1][1]]}]
-    run.note("%d members in the pool, %d lists, %d runs, %d correspondence problems, %d violations, %d cells reached, %d unreached" %
-             (len(pool), len(lists), len(lines), nbad, nviol, len(cells), len(unre)))
+    run.note("%d members in the pool, %d lists, %d runs, %d correspondence problems, %d violations (%d of a recorded known class, %d new), %d cells reached, %d unreached" %
+             (len(pool), len(lists), len(lines), nbad, nviol, nviol - nunknown, nunknown, len(cells), len(unre)))
     # a broken correspondence is reported on its own only when the search found no failing input
     if corr and not any(v[2] for v in run.violations):
         for c in corr:
